@@ -208,3 +208,50 @@ func C05Csv2Units() {
 	}
 	zz.Fail("no terminal result within the read bound")
 }
+
+// C16Csv2: a failing source ends the csv2 reader with a fatal, non-EOF error; results before
+// it (except possibly the last) equal the fault-free run.
+func C16Csv2() {
+	NR := zz.Param("NR", 2)
+	t := zzMakeTable(NR, 2, 1, '|')
+	rows := 1 + zz.NondetChoice("rows", 2)
+	var cols []*ColumnDecl
+	for l := 0; l < rows; l++ {
+		cols = append(cols, &ColumnDecl{Name: "c", Index: zzIntPtr(1), LineIndex: zzIntPtr(l + 1)})
+	}
+	decl := &FileDecl{Delimiter: "|", Records: []*RecordDecl{{Name: "r", Rows: zzIntPtr(rows), IsTarget: true, Columns: cols}}}
+	zz.Assume((&validateCtx{}).validateFileDecl(decl) == nil)
+	ra := NewReader("t", &zzChunkReader{data: t.input, failAt: -1}, decl, nil)
+	var want []string
+	for i := 0; i < NR+2; i++ {
+		n, err := ra.Read()
+		if err != nil {
+			break
+		}
+		s, _ := zzColText(n, 0)
+		want = append(want, s)
+		ra.Release(n)
+	}
+	failAt := zz.NondetChoice("failAt", len(t.input)+1)
+	rb := NewReader("t", &zzChunkReader{data: t.input, failAt: failAt, ioErr: zzIOErr}, decl, nil)
+	got := 0
+	pending, havePending := "", false
+	for i := 0; i < NR+3; i++ {
+		n, err := rb.Read()
+		if err == nil {
+			if havePending {
+				zz.Assert(got-1 < len(want) && pending == want[got-1], "results before the fault (except possibly the last) equal the fault-free run")
+			}
+			pending, _ = zzColText(n, 0)
+			havePending = true
+			got++
+			rb.Release(n)
+			continue
+		}
+		zz.Assert(err != io.EOF, "a failing source never ends in a clean EOF")
+		zz.Assert(!rb.IsContinuableError(err), "a source failure is fatal, not a per-record failure")
+		zz.Cover("fatal")
+		return
+	}
+	zz.Fail("no fatal error within the read bound")
+}
